@@ -349,6 +349,34 @@ func Main[C any](t *testing.T, s Spec[C]) {
 		return safeRun(s, env, c)
 	}
 
+	// --- regression replays: shrunk failures of defects that were fixed ----------
+	if os.Getenv("VERIF_SHARD") == "0" || os.Getenv("VERIF_SHARD") == "" {
+		files, _ := filepath.Glob(filepath.Join(verifRoot(), "replays", "regress", s.ID+"-*.json"))
+		sort.Strings(files)
+		for _, f := range files {
+			b, err := os.ReadFile(f)
+			if err != nil {
+				t.Fatal(err)
+			}
+			var rf replayFile
+			var c C
+			if err := json.Unmarshal(b, &rf); err != nil {
+				t.Fatalf("%s: %v", f, err)
+			}
+			if err := json.Unmarshal(rf.Case, &c); err != nil {
+				t.Fatalf("%s: %v", f, err)
+			}
+			o := exec(c)
+			record(c, o)
+			frag.Counters["regression_replays"]++
+			if o.Violation != "" {
+				frag.Violations++
+				reportViolation(t, s.ID, env, c, "regression "+filepath.Base(f)+": "+o.Violation, frag)
+				return
+			}
+		}
+	}
+
 	// --- directed cases --------------------------------------------------------
 	if s.Directed != nil && os.Getenv("VERIF_SHARD") == "0" {
 		for _, c := range s.Directed(env) {
